@@ -366,6 +366,9 @@ func (rp *reportingPlugin) buildReportFields(ctx context.Context, previousReport
 		var maxFinalizedTimestamp uint32
 		maxFinalizedTimestamp, err = rp.reportCodec.ObservationTimestampFromReport(ctx, previousReport)
 		merr = errors.Join(merr, err)
+		if maxFinalizedTimestamp == math.MaxUint32 {
+			merr = errors.Join(merr, fmt.Errorf("previous report timestamp %d + 1 overflows uint32", maxFinalizedTimestamp))
+		}
 		rf.ValidFromTimestamp = maxFinalizedTimestamp + 1
 	} else {
 		var maxFinalizedTimestamp int64
